@@ -305,6 +305,7 @@ class G:
             lambda: f"ZAddLT {k} {m()} {self.score()}",
             lambda: f"ZAddGT {k} {m()} {self.score()}",
             lambda: "GeoAdd " + k + "".join(" " + m() + ":" + fbits(c(GEO_LONS)) + ":" + fbits(c(GEO_LATS)) for _ in range(c([1, 1, 2, 3]))),
+            lambda: c(["GeoAddNX ", "GeoAddXX ", "GeoAddXX "]) + k + "".join(" " + m() + ":" + fbits(c(GEO_LONS)) + ":" + fbits(c(GEO_LATS)) for _ in range(c([1, 1, 2, 3]))),
             lambda: f"ZIncrBy {k} {m()} {self.score(True)}",
             lambda: f"ZCard {k}",
             lambda: f"ZScore {k} {m()}",
